@@ -320,7 +320,38 @@ def run_prog_check(ck, res, replay, pid, with_queries, quick_n, thorough_n):
         if os.path.exists(corpus):
             for c in json.load(open(corpus)):
                 cf.add(c["kind"], c["body"], prefix="k", meta={"nvars": c["nvars"]})
+        # variable indices far apart (blocks that differ by a multiple of 2^8 / 2^16 / 2^31 / 2^32 / 2^40): the same programs
+        # as above, the dense index i of a variable replaced by an increasing sparse one; judged after mapping them back
+        for i in range(120 if res.tier == "quick" else 3000):
+            nv = 4 + rng.below(5)
+            kind, dense = gen.gen_prog(rng, nv, 8 + rng.below(40), queries=False)
+            step = rng.pick([1 << 8, 1 << 16, 1 << 31, 1 << 32, 1 << 40])
+            m_ = (nv + 1) // 2
+            vmap = [(j // m_) * step + (j % m_) + rng.below(2) * 0 for j in range(nv)]
+            body = []
+            for l in dense:
+                w = l.split()
+                if w[0] == "var":
+                    body.append("var %d" % vmap[int(w[1])])
+                elif w[0] == "restrict":
+                    body.append("restrict %s %d %s" % (w[1], vmap[int(w[2])], w[3]))
+                else:
+                    body.append(l)
+            cf.add(kind, body, prefix="x", meta={"nvars": nv, "special": "sparseidx", "vmap": vmap, "dense": dense})
     impl, model = correspond(ck, res, cf, hbin, pid)
+    def unmap(lines, vmap):
+        inv = {v: k for k, v in enumerate(vmap)}
+        out = []
+        for l in lines or []:
+            if l.startswith("table "):
+                w = l.split(" ", 2)
+                ents = []
+                for e in w[2].split(";"):
+                    v_, lo_, hi_ = e.split(":")
+                    ents.append("%s:%s:%s" % (inv.get(int(v_), v_), lo_, hi_))
+                l = w[0] + " " + w[1] + " " + ";".join(ents)
+            out.append(l)
+        return out
     exact_n = iso_n = 0
     nontriv = set()
     for cid, (kind, body, meta) in cf.meta.items():
@@ -341,6 +372,8 @@ def run_prog_check(ck, res, replay, pid, with_queries, quick_n, thorough_n):
                     bad = "node table of a store with more than 2^16 nodes is not canonical: " + "; ".join(cb[:3])
                 elif any(regs_.get(x) != regs_.get(y) for x, y in same):
                     bad = "on a store with more than 2^16 nodes equal requests return different handles: %s" % [(x, regs_.get(x), y, regs_.get(y)) for x, y in same if regs_.get(x) != regs_.get(y)][:2]
+        elif meta.get("special") == "sparseidx":
+            bad, exact, iso = judge_prog(cid, meta["dense"], meta["nvars"], unmap(a, meta["vmap"]) if a is not None else None, unmap(b, meta["vmap"]) if b is not None else None)
         else:
             bad, exact, iso = judge_prog(cid, body, meta["nvars"], a, b)
         exact_n += exact
@@ -1263,7 +1296,7 @@ def judge_adf(text, a, queries, sort="none", backend=None):
     # the same query asked again later (after round trips or other calls) must give the same answer
     seen = {}
     for k, q in enumerate(queries):
-        if q[0] in ("roundtrip", "table", "validate", "audit", "ops", "paths", "panicflow"):
+        if q[0] in ("roundtrip", "table", "validate", "audit", "ops", "paths", "panicflow", "reseed"):
             continue
         key = tuple(q)
         r = ans.get(k)
@@ -1273,6 +1306,14 @@ def judge_adf(text, a, queries, sort="none", backend=None):
             bad.append(("history:" + q[0], "%s answers differently when asked again later: %s vs %s" % (" ".join(q), seen[key], r)))
         if r is not None:
             seen.setdefault(key, r.split(" ", 1)[-1])
+    # Adf::seed with the same seed starts the random stream again: the first random search of the history, asked again right
+    # after a re-seeding, gives the same models in the same order
+    first_rand = next((k for k, q in enumerate(queries) if "Rand" in q), None)
+    if first_rand is not None and not any(q[0] in ("rebuild", "reparse") or (q[0] == "roundtrip" and q[1] != "live") for q in queries):
+        for k in range(first_rand + 2, len(queries)):
+            if queries[k - 1] == ["reseed"] and queries[k] == queries[first_rand] and ans.get(k) is not None and ans.get(first_rand) is not None:
+                if ans[k] != ans[first_rand] and "NONTERMINATION" not in ans[k] + ans[first_rand]:
+                    bad.append(("reseed", "after seeding the object again with the same seed %s answers %s, the first time it answered %s" % (" ".join(queries[k]), ans[k], ans[first_rand])))
     info["n"] = len(names_impl)
     info["nstable"] = len(expected("stable")) if any(q[0] in ("stable", "stmca", "stmcb", "stmng", "stmngch", "stablepre") for q in queries) else None
     return bad, info
@@ -1661,6 +1702,10 @@ def gen_stream(rng, nvars, nops):
                 out.append("poll1 %d" % rng.below(2 + approx_nodes))
             else:
                 out.append("poll2 %d" % rng.below(2 + approx_nodes))
+    if rng.chance(1, 4) and len(out) > 4:
+        # the repair step applied to a store that is part of a stream (producer, relay or last mirror) in the middle of the run
+        for _ in range(1 + rng.below(2)):
+            out.insert(2 + rng.below(len(out) - 2), "fiximport " + rng.pick(["p", "p", "r", "m"]))
     if rng.chance(1, 8) and len(out) > 6:
         # whatever listens behind the relay goes away in the middle of the run: the relay must keep mirroring the producer
         out.insert(len(out) // 2 + rng.below(len(out) // 2), "dropdown")
@@ -1869,6 +1914,13 @@ def c11_queries_for(n):
         qs.append(["audit"])
         qs.append(rng.pick(pool[:9]))     # the probe: an answer that is also checked against the definitions
         qs.append(["audit"])
+        fr = next((q for q in qs if "Rand" in q), None)
+        if fr is not None or rng.chance(1, 4):
+            # the object is seeded again with the seed of the case: the random search repeats itself
+            fr = fr or ["stmng", "Rand"]
+            if fr not in qs:
+                qs.append(fr)
+            qs += [["reseed"], fr]
         return qs
     return f
 
@@ -2450,7 +2502,7 @@ class ServerRun:
         self.obs.append(o)
         self.raw.append((k, req, st, body))
         after = self.docs()
-        self.snapshots.append((k, req, before, after))
+        self.snapshots = [(k, req, before, after)]      # only the most recent one is ever looked at (the database grows with the run)
         # background tasks: wait until the problem is idle, then tell the model that its oldest pending task completed
         if st == 200 and kind in ("add", "solve"):
             c.wait_idle(req[1])
@@ -2701,6 +2753,7 @@ def check_C16(ck, res, replay):
         # judge the real server's final documents against the definitions
         owned = {}
         cur_text = {}
+        exp_by_text = {}
         for k, req, st, body in run.raw:
             if req[0] == "add" and st == 200:
                 owned.setdefault(k, set()).add(req[1])
@@ -2720,6 +2773,7 @@ def check_C16(ck, res, replay):
                 if declared_ok:
                     names, conds = oracle.parse_adf_text(text)
                     o = oracle.AdfOracle(names, conds)
+                    exp_memo = exp_by_text.setdefault(text, {})      # the same problem is looked at by many GETs
                 if a["parse_only"]["type"] == "Some" and not declared_ok:
                     res.violations.append({"key": "server:parsed-malformed", "what": "unparseable code is stored as parsed", "events": run.model_lines, "text": text})
                 if a["parse_only"]["type"] == "Error" and declared_ok:
@@ -2734,13 +2788,10 @@ def check_C16(ck, res, replay):
                         if r["type"] == "Some":
                             nsolved += 1
                             got = [tfu(x["ac"]) for x in r["content"]]
-                            exp = {"Ground": [o.grounded()], "Complete": o.complete()}.get(s_) or (o.stable() if s_ not in ("Ground", "Complete") else [])
-                            if s_ == "Complete":
-                                exp = o.complete()
-                            elif s_ == "Ground":
-                                exp = [o.grounded()]
-                            else:
-                                exp = o.stable()
+                            sem_ = s_ if s_ in ("Ground", "Complete") else "Stable"
+                            if sem_ not in exp_memo:
+                                exp_memo[sem_] = o.complete() if sem_ == "Complete" else ([o.grounded()] if sem_ == "Ground" else o.stable())
+                            exp = exp_memo[sem_]
                             if sorted(got) != sorted(exp):
                                 res.violations.append({"key": "server:wrong-answer:" + s_, "what": "stored models for %s are %s, the definitions give %s" % (s_, got, exp),
                                                        "events": run.model_lines, "text": text})
@@ -2879,6 +2930,9 @@ def check_C17(ck, res, replay):
                     elif k < 41:
                         newname = names[c] + "r" if rng.chance(1, 2) else names[c]
                         newpw = rng.pick(["n%s", " n%s ", "n%s "]) % pw[c].strip() if rng.chance(1, 2) else pw[c]
+                        if rng.chance(1, 5):
+                            # the same name in another capitalisation is another name
+                            newname = names[c].swapcase() if names[c].swapcase() != names[c] else names[c] + "R"
                         if rng.chance(1, 4):
                             # a name that somebody else may hold already (refused then: nothing about the account may change)
                             newname = names[rng.pick([x for x in cl if x != c])]
@@ -3030,6 +3084,25 @@ def check_C17(ck, res, replay):
                 res.violations.append({"key": "credentials:refused-update-changes-account",
                                        "what": "a temporary user's rename to a name that is taken (answer %s) changed the account: temp=%s afterwards, login to the generated name with the refused password answers %s" % (st_u2, still_temp, st_l),
                                        "events": run.model_lines[-8:]})
+            # scripted scenario: a rename that changes only the capitalisation is a rename like any other - session and problems
+            # follow the new name, the old name is free again and whoever registers it sees nothing of the first user
+            k0, k1 = base + 50, base + 51
+            run.do(k0, ("register", "Carol", "pwC")); run.do(k0, ("login", "Carol", "pwC"))
+            run.do(k0, ("add", "cprob", "s(own%d).ac(own%d,c(v))." % (k0, k0), "Naive"))
+            st_r, _ = run.do(k0, ("update", "carol", "pwC"))
+            st_i3, body_i3 = run.do(k0, ("info",))
+            st_l3, body_l3 = run.do(k0, ("list",))
+            run.do(k1, ("register", "Carol", "pwD")); run.do(k1, ("login", "Carol", "pwD"))
+            st_l4, body_l4 = run.do(k1, ("list",))
+            st_g4, body_g4 = run.do(k1, ("get", "cprob"))
+            nreq += 10
+            mine = ("own%d)" % k0)
+            if st_r != 200 or st_i3 != 200 or '"carol"' not in body_i3 or st_l3 != 200 or mine not in body_l3.replace("\\", "") or mine in body_l4.replace("\\", "") or st_g4 == 200:
+                res.violations.append({"key": "isolation:rename-capitalisation",
+                                       "what": "after renaming Carol to carol (answer %s): info answers %s %s, the own list answers %s and %s the problem; the user who registers Carol afterwards %s it (get: %s)" % (
+                                           st_r, st_i3, body_i3[:60], st_l3, "shows" if mine in body_l3.replace("\\", "") else "does not show",
+                                           "sees" if (mine in body_l4.replace("\\", "") or st_g4 == 200) else "does not see", st_g4),
+                                       "events": run.model_lines[-12:]})
             run.dump()
             # running tasks are part of what a user sees: while ANOTHER user's task for a problem of the same name runs
             # (a slow one: complete models of an odd attack cycle), this user's view of the own problem shows nothing running
